@@ -469,21 +469,24 @@ class Balancer:
             left_msb_zero = None
 
         if low > 0:
-            left_lsb = inner[high - 1 : 0]
+            left_lsb = inner[low - 1 : 0]
             left_lsb_zero = claripy.backends.vsa.is_true(left_lsb == 0)
         else:
             left_lsb = None
             left_lsb_zero = None
 
-        if left_msb_zero and left_lsb_zero:
+        # Dropping known-zero high bits changes which bit is the sign bit: only unsigned comparisons survive it
+        signed = truism.op in {"SGE", "SLE", "SGT", "SLT"}
+
+        if left_msb_zero and left_lsb_zero and not signed:
             new_left = inner
             new_right = claripy.Concat(claripy.BVV(0, len(left_msb)), truism.args[1], claripy.BVV(0, len(left_lsb)))
             return Bool(truism.op, (new_left, new_right))
-        if left_msb_zero:
+        if left_msb_zero and low == 0 and not signed:
             new_left = inner
             new_right = claripy.Concat(claripy.BVV(0, len(left_msb)), truism.args[1])
             return Bool(truism.op, (new_left, new_right))
-        if left_lsb_zero:
+        if left_lsb_zero and high == inner_size - 1:
             new_left = inner
             new_right = claripy.Concat(truism.args[1], claripy.BVV(0, len(left_lsb)))
             return Bool(truism.op, (new_left, new_right))
